@@ -52,3 +52,48 @@ pub proof fn lemma_att_step(s: Seq<PlutusWitness>, i: int)
     ensures att_scripts(s.take(i + 1)) == att_scripts(s.take(i)) + w_scripts(s[i]), att_datums(s.take(i + 1)) == att_datums(s.take(i)) + w_datums(s[i]),
             att_redeemers(s.take(i + 1)) == att_redeemers(s.take(i)).push(s[i].redeemer)
 { assert(s.take(i + 1).drop_last() =~= s.take(i)); }
+
+// ---- datums are de-duplicated by the bytes they are written as (C16: the tag-258 datum set has no two equal elements ON THE WIRE; C09: hashed = emitted)
+impl PlutusData {
+    pub uninterp spec fn bytes_of(&self) -> Seq<u8>;
+    #[verifier::external_body] pub fn to_bytes(&self) -> (r: Vec<u8>) ensures r@ == self.bytes_of() { unimplemented!() }
+}
+/// a BTreeSet<Vec<u8>> compares CONTENTS (std: Ord of Vec<u8> is lexicographic on the bytes): its members as a set of byte strings (ASSUMED)
+pub uninterp spec fn bkeys(s: BTreeSet<Vec<u8>>) -> Set<Seq<u8>>;
+#[verifier::external_body] pub fn bytes_set_new_() -> (r: BTreeSet<Vec<u8>>) ensures bkeys(r) == Set::<Seq<u8>>::empty() { unimplemented!() }
+#[verifier::external_body] pub fn bytes_set_insert_(s: &mut BTreeSet<Vec<u8>>, v: Vec<u8>) -> (r: bool)
+    ensures bkeys(*final(s)) == bkeys(*old(s)).insert(v@), r == !bkeys(*old(s)).contains(v@) { unimplemented!() }
+pub open spec fn has_bytes(p: Seq<PlutusData>, b: Seq<u8>) -> bool { exists|j: int| 0 <= j < p.len() && (#[trigger] p[j]).bytes_of() == b }
+/// first occurrences BY SERIALIZED BYTES, in their original order
+pub open spec fn dedup_k(s: Seq<PlutusData>) -> Seq<PlutusData> decreases s.len() {
+    if s.len() == 0 { Seq::empty() } else { let p = dedup_k(s.drop_last()); if has_bytes(p, s.last().bytes_of()) { p } else { p.push(s.last()) } }
+}
+pub proof fn lemma_dedup_k_step(s: Seq<PlutusData>, i: int)
+    requires 0 <= i < s.len()
+    ensures dedup_k(s.take(i + 1)) == (if has_bytes(dedup_k(s.take(i)), s[i].bytes_of()) { dedup_k(s.take(i)) } else { dedup_k(s.take(i)).push(s[i]) })
+{ assert(s.take(i + 1).drop_last() =~= s.take(i)); }
+pub proof fn lemma_has_bytes_push(p: Seq<PlutusData>, e: PlutusData)
+    ensures forall|b: Seq<u8>| #[trigger] has_bytes(p.push(e), b) <==> has_bytes(p, b) || e.bytes_of() == b
+{
+    assert forall|b: Seq<u8>| #[trigger] has_bytes(p.push(e), b) <==> has_bytes(p, b) || e.bytes_of() == b by {
+        if has_bytes(p.push(e), b) { let j = choose|j: int| 0 <= j < p.push(e).len() && (#[trigger] p.push(e)[j]).bytes_of() == b; if j < p.len() { assert(p[j].bytes_of() == b); } }
+        if has_bytes(p, b) { let j = choose|j: int| 0 <= j < p.len() && (#[trigger] p[j]).bytes_of() == b; assert(p.push(e)[j].bytes_of() == b); }
+        if e.bytes_of() == b { assert(p.push(e)[p.len() as int].bytes_of() == b); }
+    }
+}
+/// the point of it (C16): no two elements of the de-duplicated sequence are written as the same bytes
+pub proof fn lemma_dedup_k_distinct(s: Seq<PlutusData>)
+    ensures forall|i: int, j: int| 0 <= i < j < dedup_k(s).len() ==> (#[trigger] dedup_k(s)[i]).bytes_of() != (#[trigger] dedup_k(s)[j]).bytes_of()
+    decreases s.len()
+{
+    if s.len() > 0 {
+        lemma_dedup_k_distinct(s.drop_last());
+        let p = dedup_k(s.drop_last());
+        if !has_bytes(p, s.last().bytes_of()) {
+            let q = p.push(s.last());
+            assert forall|i: int, j: int| 0 <= i < j < q.len() implies (#[trigger] q[i]).bytes_of() != (#[trigger] q[j]).bytes_of() by {
+                if j == p.len() { assert(q[i] == p[i]); if q[i].bytes_of() == q[j].bytes_of() { assert(p[i].bytes_of() == s.last().bytes_of()); } } else { assert(q[i] == p[i] && q[j] == p[j]); }
+            }
+        }
+    }
+}
